@@ -302,6 +302,7 @@ PROPS["C12"] = dict(
         R("C12.close_generated_stacks", "swarms", "TestC12Close", 160, 6000, shrink=10, quick=dict(checks=160, shards=4, timeout=900)),
         R("C12.close_ssh", "swarms", "TestC12CloseSSH", 12, 600, shrink=10, quick=dict(checks=12, shards=2, timeout=600)),
         R("C12.hub_mass_close", "hubs", "TestC12HubMassClose", 60, 3000),
+        R("C12.channel_reopen", "swarms", "TestC12ChannelReopen", 400, 20000, shrink=10, quick=dict(shards=2, timeout=600)),
     ],
 )
 
